@@ -186,6 +186,7 @@ class W09:
         self.aborted = False
         self.scanner_cfg = {}
         self.cur_cfg = 0
+        self.labels = set()
 
     def setup(self):
         cfg = self.scn["config"]
@@ -230,6 +231,7 @@ class W09:
                 "decoded": model.decoded_nodes(c),
                 "depth": model.tree_depth(c),
             }
+            self.labels |= model.labels(c)
             if not model.parent_links_ok(tree_or_exc):
                 self.violations.append({"clause": "parent_links", "key": key, "op": self.opi})
             if keep:
@@ -599,6 +601,7 @@ class W09:
             "counters": self.counters,
             "interleavings": self.interleavings,
             "forms": self.forms,
+            "labels": sorted(self.labels),
         }
 
 
@@ -994,6 +997,7 @@ class W20:
             return (1 if any(ord(ch) > 127 for ch in c[0]) else 0) + sum(nonascii(k) for k in c[5])
 
         self.counters["nonascii_labels"] = nonascii(ctree)
+        self.events[-1]["labels"] = sorted(model.labels(ctree))
         lib_json = tree_to_json(tree)
         expected = {
             "json": (lib_json + "\n").encode("utf-8"),
